@@ -11,13 +11,14 @@
 //!   pin    point|ci …            <bits…>    the bits on the current tree (compared with the bits in the line)
 //!   gather <k> <scaled> <conf> <calc_ci> <orig> <remaining> <match> <match_size>
 //!                                           ANI-related fields of calculate_gather_stats
+//!   gatherv (same arguments)                verdict on the reported fields themselves: ani-ok avg-ok max-ok ci-ok
 //!   mid    q|expn|varn|expsq|pnc|f12 …      private intermediates — see `real_src` below
 //!
 //! `point`, `ci`, `cib`, `ref point|ci`, `pin`, `gather` run the real crate (`sourmash::ani_utils`,
 //! `sourmash::index::calculate_gather_stats`).  The functions r1_to_q, exp_n_mutated, var_n_mutated,
 //! exp_n_mutated_squared and the closures term_1..3 / var_direct / f1 / f2 are private to
 //! `ani_utils.rs` and not reachable through any pub fn, so the `mid` ops compile **the same source
-//! file** a second time into this binary (`include!("/repo/src/core/src/ani_utils.rs")`) next to two
+//! file** a second time into this binary (`include!` of `$VERIF_REPO/src/core/src/ani_utils.rs`) next to two
 //! shims that stand in for exactly the two externals the property excludes from the bit-for-bit
 //! comparison: `roots::find_root_brent` (the shim evaluates the closure it is handed at a probe point
 //! and records the value) and `statrs` probit (the shim returns the z given on the request line).
@@ -87,7 +88,8 @@ mod real_src {
             }
         }
     }
-    include!("/repo/src/core/src/ani_utils.rs");
+    // VERIF_REPO is exported by ./check (default /repo); for a manual build: VERIF_REPO=/repo cargo build --offline --bin c19
+    include!(concat!(env!("VERIF_REPO"), "/src/core/src/ani_utils.rs"));
 
     pub fn x_r1_to_q(k: f64, r1: f64) -> f64 {
         r1_to_q(k, r1)
@@ -286,7 +288,7 @@ fn step(_: &mut (), ws: &[&str]) -> String {
             }
             _ => "bad-op".into(),
         },
-        "gather" => {
+        "gather" | "gatherv" => {
             let k = u(1) as u32;
             let scaled = u(2);
             let conf = pconf(ws[3]);
@@ -313,6 +315,20 @@ fn step(_: &mut (), ws: &[&str]) -> String {
                             _ => format!("diff:{}:{}", opt_bits(lo), opt_bits(hi)),
                         }
                     };
+                    if ws[0] == "gatherv" {
+                        // the property, on the values gather itself reports
+                        let (q, m) = (r.query_containment_ani(), r.match_containment_ani());
+                        let ani_ok = q.to_bits() == ani_from_containment(r.f_orig_query(), kf).to_bits()
+                            && m.to_bits() == ani_from_containment(r.f_match_orig(), kf).to_bits();
+                        let avg_ok = r.average_containment_ani() == (q + m) / 2.0;
+                        let mx = r.max_containment_ani();
+                        let max_ok = mx >= q && mx >= m && (mx == q || mx == m);
+                        let cq = ci_same(r.f_unique_to_query(), r.query_containment_ani_ci_low(), r.query_containment_ani_ci_high());
+                        let cm = ci_same(r.f_match(), r.match_containment_ani_ci_low(), r.match_containment_ani_ci_high());
+                        let ci_ok = [cq, cm].iter().all(|s| s == "same" || s == "none");
+                        let t = |b: bool, s: &str| format!("{}-{}", s, if b { "ok" } else { "BAD" });
+                        return format!("{} {} {} {}", t(ani_ok, "ani"), t(avg_ok, "avg"), t(max_ok, "max"), t(ci_ok, "ci"));
+                    }
                     format!(
                         "{} {} {} {} {} {} {} {} {} {}",
                         fb(r.f_orig_query()),
@@ -564,8 +580,8 @@ fn gen(a: &Args) {
         let match_size = r.range(0, mat.len() as u64);
         let conf = *r.pick(&CONFS);
         let calc_ci = r.chance(2, 3);
-        o.op(&format!(
-            "gather {} {} {} {} {} {} {} {}",
+        let args = format!(
+            "{} {} {} {} {} {} {} {}",
             k,
             scaled,
             conf_s(conf),
@@ -574,7 +590,9 @@ fn gen(a: &Args) {
             show_nats(remaining),
             show_nats(mat),
             match_size
-        ));
+        );
+        o.op(&format!("gather {}", args));
+        o.op(&format!("gatherv {}", args));
     }
 }
 
